@@ -324,6 +324,12 @@ func c16Menu(in c16Init, full bool) []string {
 				if !full && strings.Contains(n1, ".") && e != "1" && e != "len(a)" {
 					continue
 				}
+				if strings.HasPrefix(n1, "a.") && e == "a" {
+					// a[i] := a makes the list contain itself; rendering such a value
+					// kills the process (recorded finding C06 / C16, Engine-B part
+					// self-referential-containers) and the worker with it
+					continue
+				}
 				add("inject " + t + " " + n1 + " " + e)
 			}
 		}
